@@ -2,7 +2,7 @@
 # tools/runall.sh [quick|thorough] [ids...] : run checks sequentially, one summary line each
 tier=${1:-quick}; shift
 ids=${@:-C01 C02 C03 C04 C05 C06 C07 C08 C09 C10 C11 C12 C13 C14 C15 C16 C17 C18 C19 C20}
-cd /verif
+cd "$(dirname "$0")/.."   # the copy this script belongs to (a vp run snapshot, or /verif)
 for id in $ids; do
   s=$(date +%s)
   out=$(./check $id $tier 2>&1); rc=$?
